@@ -139,6 +139,7 @@ pub trait AddrLike {
     fn aid(&self) -> u64;
     fn register(self: Box<Self>) -> LocalBoxFuture<'static, HResult<(Box<dyn AddrLike>, Option<Box<dyn AddrLike>>)>>;
     fn replace(self: Box<Self>) -> LocalBoxFuture<'static, Option<Box<dyn AddrLike>>>;
+    fn into_any(self: Box<Self>) -> Box<dyn std::any::Any>;
     fn into_sender_unit(self: Box<Self>) -> Sender<()>;
     fn into_sender_bc(self: Box<Self>) -> Sender<Bc>;
     fn into_sender_bc2(self: Box<Self>) -> Sender<Bc2>;
@@ -158,6 +159,9 @@ pub trait AddrLike {
     }
 }
 impl<const K: usize> AddrLike for Addr<H<K>> {
+    fn into_any(self: Box<Self>) -> Box<dyn std::any::Any> {
+        self
+    }
     fn weak_topic1(&self) -> WeakSender<Tp<1>> {
         Addr::weak_sender(self)
     }
@@ -262,6 +266,7 @@ macro_rules! broker_addr {
             fn aid(&self) -> u64 { self.__verif_id() }
             fn register(self: Box<Self>) -> LocalBoxFuture<'static, HResult<(Box<dyn AddrLike>, Option<Box<dyn AddrLike>>)>> { unsupported!() }
             fn replace(self: Box<Self>) -> LocalBoxFuture<'static, Option<Box<dyn AddrLike>>> { unsupported!() }
+            fn into_any(self: Box<Self>) -> Box<dyn std::any::Any> { self }
             fn into_sender_unit(self: Box<Self>) -> Sender<()> { unsupported!() }
             fn into_sender_bc(self: Box<Self>) -> Sender<Bc> { unsupported!() }
             fn into_sender_bc2(self: Box<Self>) -> Sender<Bc2> { unsupported!() }
@@ -425,6 +430,40 @@ fn take_h(name: &str) -> HandleV {
 fn put_h(name: &str, h: HandleV) {
     TAB.with(|t| t.borrow_mut().handles.insert(name.to_string(), h));
 }
+/// An `Addr<H<0>>` that was given to actor `owner`, borrowed by one of its handlers for a nested call / send to that
+/// peer.  `Send` (unlike the type-erased table entries), and put back into the table when dropped.
+pub struct PeerAddr {
+    name: String,
+    pub addr: Option<Addr<H<0>>>,
+}
+impl Drop for PeerAddr {
+    fn drop(&mut self) {
+        if let Some(a) = self.addr.take() {
+            put_h(&self.name, HandleV::Addr(Box::new(a)));
+        }
+    }
+}
+pub fn take_peer(name: &str, owner: &str) -> Option<PeerAddr> {
+    let h = TAB.with(|t| {
+        let mut t = t.borrow_mut();
+        if t.given.get(name).map(String::as_str) != Some(owner) {
+            return None;
+        }
+        match t.handles.remove(name) {
+            Some(HandleV::Addr(a)) => Some(a),
+            Some(other) => {
+                t.handles.insert(name.to_string(), other);
+                None
+            }
+            None => None,
+        }
+    })?;
+    match h.into_any().downcast::<Addr<H<0>>>() {
+        Ok(a) => Some(PeerAddr { name: name.to_string(), addr: Some(*a) }),
+        Err(_) => panic!("harness: peer handle is not an Addr<H<0>>"),
+    }
+}
+
 /// A handle that was given to actor `owner` (scenario op `give`), to be registered as its child.
 pub fn take_child(name: &str, owner: &str) -> Option<Box<dyn AddrLike>> {
     TAB.with(|t| {
